@@ -161,7 +161,7 @@ Definition first_class (l : list (bool * N)) : option N :=
 (* the format-safe class of the normalization family: outside it formatting itself changes
    content (findings of C01/C02/C06/C07), and rename formats every note it touches *)
 Definition format_safe (bs : list dblock) : bool :=
-  inert_blocks bs && forallb calm_items bs.
+  inert_blocks bs.
 
 Section Attempt.
   Variable c : rcase.
